@@ -175,7 +175,9 @@ CLAIMS = {
              "check_window_length, check_step_length, check_sp, check_cutoffs, check_fh, check_time_index, check_series, check_y, "
              "check_equal_time_index, evaluate's _check_strategy, ForecastingHorizon construction, and -- through the C01 contracts -- "
              "the rejection conditions of every splitter entry point (window/initial window/horizon that does not fit, clashing options), "
-             "temporal_train_test_split(fh + sizes), MultiplexForecaster with an unknown selection.",
+             "temporal_train_test_split(fh + sizes), MultiplexForecaster with an unknown selection, NaiveForecaster.fit (invalid sp / "
+             "window_length / strategy, window that does not fit), ill-formed composites (_check_forecasters: None, empty, not a list, "
+             "duplicate / reserved / dunder names, all dropped, non-forecaster member; pipeline _check_steps: names, wrong step types).",
         note="input space is split into type cases (int/bool/float/None/str/list; Series/DataFrame/ndarray/list/None with sorted, unsorted, "
              "empty, unsupported index) inside which values are symbolic; forecaster entry points (fit/predict/update of concrete "
              "forecasters) are covered by the bounded native tier only",
